@@ -36,9 +36,6 @@ from contracts.common import AbstractPointTheory
 from contracts.kernels import opaque_real
 from contracts.C14 import _STATS
 
-if not hasattr(np, 'NaN'):          # numpy >= 2 dropped the alias the pinned holopy still spells (environment drift, DESIGN.md 3.4)
-    np.NaN = np.nan
-
 NM = "holopy.inference.nmpfit:"
 SF = "holopy.inference.scipyfit:"
 RS = "holopy.inference.result:"
@@ -54,8 +51,7 @@ META = {
     'assumptions': ["assumed contract of the optimisers: A1 answer within the limits given (mpfit), A2 never worse than the start, A3 zero residual "
                     "at the start returns the start, A4 deterministic",
                     "the forward calculation is an opaque deterministic function of the scatterer's parameters (its value is C01's subject)",
-                    "2x2 data images (bounded in shape); pixel values, noise level, prior bounds / guesses and the optimiser's answer are symbolic",
-                    "np.NaN is aliased to np.nan inside the check (numpy >= 2 removed the alias the pinned code uses)"],
+                    "2x2 data images (bounded in shape); pixel values, noise level, prior bounds / guesses and the optimiser's answer are symbolic"],
 }
 
 
